@@ -54,7 +54,10 @@ ModeOf(n) == CASE n = 0 -> "clear" [] n = 1 -> "past" [] n = 2 -> "far" [] OTHER
 (***************************************************************************)
 CallState(S, r) ==
   LET e == r.e  s == r.s IN
-  IF r.op = "open" THEN (IF Script /\ CanOpen(S, e) THEN NoWire(DoOpen(S, e)) ELSE S)
+  IF r.op = "open" THEN      \* recorded once the open message was seen on the wire (s = its identifier, 0 = none)
+       (IF Script /\ s > 0
+        THEN (LET T == SyncNext(S, e, s) IN IF CanOpen(T, e) /\ T.nextOut[e] = s THEN NoWire(DoOpen(T, e)) ELSE S)
+        ELSE S)
   ELSE IF s = 0 THEN S
   ELSE IF r.op = "write" THEN
        (IF ~Script \/ WriteBusy(S, e, s) THEN S
@@ -85,7 +88,14 @@ Force(S, e, s) == [S EXCEPT !.ss[e][s].reg = TRUE, !.ss[e][s].est = TRUE, !.ss[e
 
 RetOpen(S, r) ==
   LET e == r.e IN
-  IF r.err = "" THEN
+  IF Has(r, "pre") /\ r.pre THEN     \* OpenStream with an already cancelled context: only outcome (c) leaves a trace on the wire
+       (IF Script /\ r.s > 0
+        THEN (LET T == SyncNext(S, e, r.s) IN
+              IF CanOpen(T, e) /\ T.nextOut[e] = r.s
+              THEN [S |-> NoWire(DoOpenCleanup(DoOpen(T, e), e, r.s)), ok |-> r.err = "canceled"]
+              ELSE [S |-> S, ok |-> FALSE])
+        ELSE [S |-> S, ok |-> TRUE])
+  ELSE IF r.err = "" THEN
        [S |-> Force(S, e, r.sid), ok |-> ~Script \/ (r.sid = r.s /\ OpenPending(S, e, r.sid) /\ OpenOutcome(S, e, r.sid) = "ok")]
   ELSE IF Script /\ r.s > 0 THEN
        [S |-> LocalClose(S, e, r.s),
@@ -94,7 +104,9 @@ RetOpen(S, r) ==
                     [] r.err = "canceled" -> OpenOutcome(S, e, r.s) = "pending"
                     [] r.err = "muxclosed" -> ~Alive(S)
                     [] OTHER -> FALSE]
-  ELSE [S |-> S, ok |-> ~Script \/ r.err # "exhausted" \/ Exhausted(S, e)]
+  ELSE IF Script /\ r.err = "exhausted"      \* opens cancelled before their open message may have used up identifiers unseen
+       THEN [S |-> [S EXCEPT !.nextOut[e] = 0], ok |-> Exhausted(S, e) \/ S.idmax <= MaxId]
+  ELSE [S |-> S, ok |-> TRUE]
 
 RetAccept(S, r) ==
   LET e == r.e IN
@@ -219,7 +231,7 @@ Next3(i, r) ==   \* <<new st, new ax, new stats, failures>>
        <<st, ax, [stats EXCEPT !.hb = @ + 1,
                                !.hbspur = @ + B2N(r.flowClosed[1] \/ r.flowClosed[2]),
                                !.hbundet = @ + B2N(~(r.detected[1] /\ r.detected[2]))], <<>>>>
-  ELSE IF r.ev \in {"Skip", "Final", "Storm"} THEN <<st, ax, stats, <<>>>>
+  ELSE IF r.ev \in {"Skip", "Final", "Storm", "OpenCancel"} THEN <<st, ax, stats, <<>>>>
   ELSE <<st, ax, stats, <<Fail(i, "TraceAccepted")>>>>
 
 TInit == l = 1 /\ fails = <<>> /\ st = InitS(1, 1) /\ ax = InitAx /\ stats = InitStats /\ done = FALSE
